@@ -53,3 +53,10 @@ Proof. exact DispatchProofs.dispatch_domain. Qed.
 Theorem C01_option_tables_agree :
   forallb (fun p => match DispatchProofs.model_spec (fst p) with Some m => DispatchProofs.spec_agrees (snd p) m | None => false end) Facts.opt_specs = true.
 Proof. exact DispatchProofs.option_tables_agree. Qed.
+(* parameter names, XHTML element tables, export formats and expansion limits are those of the source *)
+Theorem C01_source_constants_agree :
+  (nth_error (DispatchProofs.switch_of "frundis.macroXset") 0 = Some Proc3.known_params /\ nth_error (DispatchProofs.switch_of "frundis.macroXset") 1 = Some Proc3.rendered_params) /\
+  (DispatchProofs.switch_of "xhtml.Xdtag" = [Exp.flow_elems] /\ DispatchProofs.switch_of "xhtml.Xmtag" = [Exp.phrasing_elems]) /\
+  Facts.valid_formats = Proc2.valid_formats /\
+  (N.of_nat max_macro_expansions = Facts.max_macro_expansions /\ N.of_nat max_macro_args_size = Facts.max_macro_args_size).
+Proof. exact (conj DispatchProofs.known_params_agree (conj DispatchProofs.element_tables_agree (conj DispatchProofs.valid_formats_agree DispatchProofs.expansion_limits_agree))). Qed.
